@@ -92,8 +92,10 @@ func genCase(t *rapid.T) Case {
 	c := Case{Total: rapid.IntRange(2, 4).Draw(t, "total")}
 	c.Old = subset(t, "old", c.Total)
 	c.New = subset(t, "new", c.Total)
-	// (ids that are names the shard manager itself uses on disk are users like any other)
-	users := []string{"user1", "user10", "user2", "u", "alice", "user1x", "bob", "sharddb.bbolt", "userCollections", "sharddb.bbolt.backup"}
+	// (ids that are names the shard manager itself uses on disk are users like any other, and so are ids of
+	// several "/"-separated parts: the owner of a user is computed from the whole id everywhere; no id in
+	// the pool is a "/"-prefix of another, which is what keeps the key prefixes of two users apart)
+	users := []string{"user1", "user10", "user2", "u", "alice", "user1x", "bob", "sharddb.bbolt", "userCollections", "sharddb.bbolt.backup", "org7/alice", "a/b/c"}
 	nc := rapid.IntRange(1, 5).Draw(t, "ncols")
 	seen := map[string]bool{}
 	for i := 0; i < nc; i++ {
